@@ -12,6 +12,7 @@
 //!   MODEL = coq/Model/Unified.v unified_run over the packet-level TCP analyzer model and the stateless TLS path
 //!   (coq/Model/AnalyzerReports.v); run = HuginnNet::analyze_tcp with the per-packet injected clock; own rendering:
 //!   packets joined by ';', the 8 groups by '^': signature Display | <mtu>~<M+link hex|X|D> | uptime token | TLS token | '-'
+//! (both kinds also run TCP Fast Open connections from cflow: the SYN carries the complete ClientHello / request)
 //! kind U (fully concrete composition, HTTP may be enabled):  <t><h><l><m><d> U <cap> <t ms>:<frame hex> ...
 //!   as K with the packet-level HTTP analyzer model as the HTTP stage (coq/Extract/EC20.v); the two HTTP groups print
 //!   '-' | Q.<..> | R.<..> (HTTP/1, EC09 token) | Q2 <..> | R2 <..> (HTTP/2, coq/Model/HttpH2.v without lang)
@@ -420,6 +421,27 @@ fn gen(r: &mut Rng, tier: &Tier, out: &mut Vec<String>) {
         let cfgbits = *r.pick(&["11111", "11111", "01011", "01000", "11011", "01101", "11101", "11100", "01111", "10111"]);
         let cap = if case % 8 == 3 { 1 + r.below(4) as usize } else { 1000 };
         let mut line = format!("{} U {}", cfgbits, cap);
+        for (f, t) in &tr { line.push_str(&format!(" {}:{}", t, hex_or_dash(f))); }
+        out.push(line);
+    }
+    // kinds K and U with TCP Fast Open connections: the SYN itself carries a complete single-segment ClientHello (or the
+    // whole HTTP request), IPv4 and IPv6, so the per-packet union demands the TLS / HTTP group on a SYN packet
+    for case in 0..tier.scale(48, 600) {
+        let u_kind = case % 2 == 1;
+        let n = 1 + r.below(3) as usize;
+        let mut conns: Vec<Vec<cflow::Frame>> = Vec::new();
+        for j in 0..n {
+            let tfo = j == 0 || r.chance(1, 3);
+            let ck = if tfo { *r.pick(&[1u64, 1, 1, 0]) } else { *r.pick(&[1u64, 0, 2]) };
+            let mut sp = cflow::ConnSpec::new(ck, (case / 2 + j) % 2 == 1, (case as u64 * 19 + j as u64 * 43) % 4000 + j as u64 * 6000);
+            sp.tfo = tfo;
+            let t0 = 1_000_000 + r.below(1000);
+            conns.push(cflow::connection(r, &sp, t0));
+        }
+        let tr: Vec<cflow::Frame> = cflow::interleave(r, &conns, case % 5 == 0).into_iter().map(|(_, f)| f).collect();
+        let cfgbits = if u_kind { *r.pick(&["11111", "11111", "01101", "01100", "11101", "00111", "00101", "10111"]) }
+                      else { *r.pick(&["10111", "10101", "10100", "00111", "00101", "00100"]) };
+        let mut line = format!("{} {} 1000", cfgbits, if u_kind { "U" } else { "K" });
         for (f, t) in &tr { line.push_str(&format!(" {}:{}", t, hex_or_dash(f))); }
         out.push(line);
     }
